@@ -125,6 +125,8 @@ def run_set(ctx, item, nvals, ninputs):
             mode = ["in-range", "py-storage", "storage"][k % 3]
             values.append((ti, mode, M.gen_value(R, t, in_range={"in-range": True, "py-storage": "py", "storage": False}[mode], maxlen=R.choice([2, 8, 30]))))
         values.append((ti, "in-range", M.max_value(t)))
+        values.append((ti, "in-range", M.min_value(t, 0)))
+        values.append((ti, "in-range", M.min_value(t, ti + 1)))
         for label, data in W.des_inputs(R, t, ninputs):
             inputs.append((ti, label, data))
     hist = {}
